@@ -34,7 +34,11 @@ def check(pid, tier, seed):
     pool = [(x, e) for x in recs3 if 1 <= len(x["log"]) <= 4 for e in ("std",)] + \
            [(x, e) for x in recs2 if 1 <= len(x["log"]) <= 4 for e in ("readdirscb", "readhistcb", "rc2cb", "readdirs", "readhist", "rc2")]
     rnd.shuffle(pool)
-    pool = single + pool
+    # two drop-in directories per layer (CONFIG_DIRS list, econf_set_conf_dirs): a refusal in the first one stands
+    r4, recs4, _ = tree_export(3, [3, 6], 4, ["bb"], nd=2)
+    pool2 = [(x, e) for x in recs4 if 2 <= len(x["log"]) <= 4 and any(2 in row for row in x["pd"]) for e in ("config_dirs", "set_conf_dirs")]
+    rnd.shuffle(pool2)
+    pool = single + pool2[:60 if tier == "quick" else len(pool2)] + pool
     budget = 1200 if tier == "quick" else 15000
     scen = []
     flagsets = [dict(owner=o, group=g, nosym=s) for o in (0, 1) for g in (0, 1) for s in (0, 1) if o or g or s]
@@ -62,7 +66,7 @@ def check(pid, tier, seed):
     cases = []
     meta = []
     for i, (x, ent, attrs, fl) in enumerate(scen):
-        use_cb = ent.endswith("cb") or ent == "std"
+        use_cb = ent.endswith("cb") or ent in ("std", "config_dirs", "set_conf_dirs")
         sc, paths, K, shape = scenario_script(i, x, ent, attrs=attrs, flags=fl, reset_reread=True, use_cb=use_cb)
         cases.append((i, sc))
         meta.append((paths, K, use_cb))
@@ -90,7 +94,7 @@ def check(pid, tier, seed):
     rc = verdict.finish()
     cov = {"states": mc.distinct, "transitions": mc.generated, "traces_validated_against_impl": n - bad,
            "evaluations": n * 2, "distinct_nontrivial": nn,
-           "rule": "MC_Security: 2-layer trees x every {matching,foreign} owner/group x {regular,symlink} assignment to the consulted files x every flag history of <= 4 steps. Traces: %d scenarios over 3-layer (econf_readConfigWithCallback) and 2-layer trees (econf_readFile, econf_readFileWithCallback on single files; econf_readDirs, econf_readDirsWithCallback, econf_readDirsHistory(+WithCallback), econf_readConfig(+WithCallback) with PARSING_DIRS) x the 7 non-empty flag combinations x attribute vectors {exactly one file violating one active rule, random vectors, vectors violating only inactive rules}; files are lchown'ed to uid/gid %d resp. replaced by symbolic links; each scenario = set flags, read, econf_reset_security_settings, read again. Trace_Layers computes the violations from the logged attributes and accepts only the code of the first failing file, no object, no callback for the refused file, full content after reset. non-trivial = >= 2 consulted files of which exactly one violates an active rule." % (n, p_layers.FOREIGN),
+           "rule": "MC_Security: 2-layer trees x every {matching,foreign} owner/group x {regular,symlink} assignment to the consulted files x every flag history of <= 4 steps. Traces: %d scenarios over 3-layer (econf_readConfigWithCallback) and 3-layer trees with two drop-in directories per layer (CONFIG_DIRS list, econf_set_conf_dirs) and 2-layer trees (econf_readFile, econf_readFileWithCallback on single files; econf_readDirs, econf_readDirsWithCallback, econf_readDirsHistory(+WithCallback), econf_readConfig(+WithCallback) with PARSING_DIRS) x the 7 non-empty flag combinations x attribute vectors {exactly one file violating one active rule, random vectors, vectors violating only inactive rules}; files are lchown'ed to uid/gid %d resp. replaced by symbolic links; each scenario = set flags, read, econf_reset_security_settings, read again. Trace_Layers computes the violations from the logged attributes and accepts only the code of the first failing file, no object, no callback for the refused file, full content after reset. non-trivial = >= 2 consulted files of which exactly one violates an active rule." % (n, p_layers.FOREIGN),
            "samples": events[:3], "exhaustive": False, "trusted_base": ["TLC 1.8.0", "gcc ASan/UBSan", "drv.c (runs as root)"]}
     core.write_evidence(pid, tier, seed, "model_checking", cov,
                         ["checks run as root; foreign = uid/gid 54321", "econf_requirePermissions is not part of the property", "process-wide flags are reset after every scenario"],
